@@ -509,7 +509,7 @@ def run_o_reflect(inp):
     dn = d / np.sqrt(G.mink(d, d))[..., None]
     out["normal"] = float(np.abs(np.einsum("...i,...ij->...j", dn, R) + dn).max() / (np.abs(dn).max() * math.sqrt(sc)))
     ib = np.array(Hp.ideal_basis, dtype=float)
-    out["ideal_null"] = float(np.abs(np.einsum("...ki,ij,...kj->...k", ib, Jm, ib)).max())
+    out["ideal_null"] = float((np.abs(np.einsum("...ki,ij,...kj->...k", ib, Jm, ib)) / np.maximum(1.0, np.einsum("...ki,...ki->...k", ib, ib))).max())
     out["ideal_fixed"] = float(np.abs(ib @ R - ib).max() / (max(1.0, np.abs(ib).max()) * math.sqrt(sc)))
     # a random point of the wall: project w off the normal
     w = np.array(inp["w"])
@@ -525,8 +525,9 @@ def run_o_reflect(inp):
     if out["rt_shape"]:
         out["rt_normal"] = float(np.minimum(np.abs(n2 - dn).max(-1), np.abs(n2 + dn).max(-1)).max())
         ib2 = np.array(H2.ideal_basis, dtype=float)
-        out["rt_ideal"] = float(max(np.abs(np.einsum("...ki,ij,...kj->...k", ib2, Jm, ib2)).max(),
-                                    np.abs(np.einsum("...ki,ij,...j->...k", ib2, Jm, dn)).max()))
+        nb2 = np.maximum(1.0, np.einsum("...ki,...ki->...k", ib2, ib2))
+        out["rt_ideal"] = float(max((np.abs(np.einsum("...ki,ij,...kj->...k", ib2, Jm, ib2)) / nb2).max(),
+                                    (np.abs(np.einsum("...ki,ij,...j->...k", ib2, Jm, dn)) / np.sqrt(nb2) / np.linalg.norm(dn, axis=-1)[..., None]).max()))
         R2 = np.array(H2.reflection_across().proj_data, dtype=float)
         out["rt_refl"] = float(np.abs(R2 - R).max() / math.sqrt(sc))
         if dim == 2:
